@@ -51,7 +51,7 @@ func init() {
 		"Decides: Activity.Cancel is called only inside the harness's once-only cancellation; the interrupting transformer is installed iff CancelActivity(); events reach boundary listeners only while the activity is active and `active` is set before the activity is asked and cleared after its answer is relayed (R41,R23); necessary conditions for 'normal flow never after interruption' (state written by the cancellation is read on the relay path) and for 'boundary listeners do not keep the instance from completing' (listener flows do not count on the process wait group or are terminated with the activity) (R41).",
 		"interleavings of event and answer.")
 	prop("C11", "Event delivery",
-		[]string{"R3", "R5", "R14[ConsumeEvent]", "R22", "R42"}, nil,
+		[]string{"R3", "R5", "R14[ConsumeEvent]", "R22", "R41", "R42"}, nil,
 		"Decides: delivery cannot block on a node that was never reached (R14); ForwardEvent visits every consumer; the consumer list is copied under the read lock and forwarded outside it; a catch event matches only while activated, releases every parked token exactly once and clears the list (R42,R3,R22); posted message types have handlers (R5).",
 		"matching semantics per event kind, 'dropped without effect on later listeners' as a history fact.")
 	prop("C12", "Embedded sub-process",
